@@ -275,3 +275,50 @@ def _gpb(n):
 
 _gpb(2)
 _gpb(3)
+
+
+@obligation("C18", "converged", ensures=["O-C18-converged.single-survivor", "O-C18-converged.not-yet"],
+            fns=[SM + "StaticMultipleModel._convergedToSingleModel", AF + "AdaptiveFilter.prune", AF + "AdaptiveFilter._resumeSequentialFiltering"], mode="R",
+            bounded="3 models, state dimension 1 (weights and both thresholds symbolic)",
+            note="closing through the convergence path: when exactly one model's probability reaches the convergence percentage and the chi-square gate passes, every other model is removed, the surviving model is that one and the filter handed back carries its estimate; otherwise nothing is pruned and estimation stays open")
+def converged(vc):
+    from resonaate.estimation.sequential_filter import FilterFlag
+    n = 3
+    w = _weights(vc, n)
+    pct = vc.real("pct", 0.5, 0.999999)
+    thr = vc.real("thr", 1e-12, 0.2)
+    gate = vc.bool("gate")
+    dt = object if vc.symbolic else float
+    models = [_NS(tag=i, est_x=_arr(vc, [vc.real(f"x{i}", -9, 9)]), est_p=_arr(vc, [[vc.real(f"P{i}", 0, 9)]]),
+                  pred_x=_arr(vc, [vc.real(f"px{i}", -9, 9)]), pred_p=_arr(vc, [[vc.real(f"pP{i}", 0, 9)]]), time=1.0, source="Observation") for i in range(n)]
+    built = {}
+    if vc.symbolic:
+        vc.stub(SM + "@oneSidedChiSquareTest", lambda *a, **k: gate)
+        eci = vc.fn(ST + "eciStack")
+    else:
+        import resonaate.estimation.adaptive.mmae_stacking_utils as msu
+        eci = msu.eciStack
+        vc.assume(min(abs(x - pct) for x in w) > 1e-9)
+    f = vc.new(SM + "StaticMultipleModel", models=list(models), model_weights=_arr(vc, w), model_likelihoods=_arr(vc, [1.0] * n),
+               mode_probabilities=_arr(vc, [1.0] * n), num_models=n, prune_threshold=thr, prune_percentage=pct, target_id=7, time=0.0, x_dim=1, stacking_method=eci,
+               est_x=np.zeros(1, dtype=dt), pred_x=np.zeros(1, dtype=dt), flags=FilterFlag.ADAPTIVE_ESTIMATION_START,
+               _filter_class=lambda **kw: (built.update(kw), _NS())[1], dynamics="dyn", q_matrix="Q", maneuver_detection="md",
+               _original_filter=_NS(extra_parameters={}), is_angular=None, innovation=None, nis=1.0, source=None, mean_pred_y=None, r_matrix=None, cross_cvr=None,
+               innov_cvr=None, kalman_gain=None, maneuver_metric=None, true_y=np.zeros(2), logger=__import__("logging").getLogger("pyvc"))
+    if vc.symbolic:
+        done = f._convergedToSingleModel([])
+    else:
+        import resonaate.estimation.adaptive.smm as smm
+        from unittest import mock
+        with mock.patch.object(smm, "oneSidedChiSquareTest", lambda *a, **k: gate):
+            done = f._convergedToSingleModel([])
+    winners = [i for i in range(n) if bool(w[i] >= pct)]
+    should_close = len(winners) == 1 and bool(gate)
+    if should_close:
+        k = winners[0]
+        vc.ensure("O-C18-converged.single-survivor", vc.And(bool(done), len(f.models) == 1 and f.models[0].tag == k, vc.eq(built.get("est_x", np.array([99.0])), models[k].est_x, 1e-9),
+                                                             vc.eq(built.get("est_p", np.array([[99.0]])), models[k].est_p, 1e-9), vc.eq(f.model_weights[0], 1, 1e-9)))
+        vc.ensure("O-C18-converged.not-yet", True)
+    else:
+        vc.ensure("O-C18-converged.not-yet", (not bool(done)) and len(f.models) == n and not built)
+        vc.ensure("O-C18-converged.single-survivor", True)
